@@ -71,15 +71,18 @@ Docs == <<D1, D2>>
 
 \* --------------------------------------------------------------------------------- styles
 \* [q: "dq"|"sq", ws: "none"|"nl"|"crlf"|"tagsp", empty: "self"|"pair", enc: "lit"|"ent"|"dec"|"hex", hdr: header variant]
+Rep16(x) == LET a == x \o x b == a \o a c == b \o b IN c \o c
 Header(h) == CASE h = "plain" -> "<?xml version=\"1.0\" encoding=\"utf-8\"?>"
                [] h = "sa" -> "<?xml version=\"1.0\" encoding=\"utf-8\" standalone=\"yes\"?>"
                [] h = "bom" -> "{ef}{bb}{bf}<?xml version=\"1.0\" encoding=\"utf-8\"?>"
                [] h = "sq" -> "<?xml version='1.0' encoding='utf-8'?>"
                [] h = "upper" -> "<?xml version=\"1.0\" encoding=\"UTF-8\"?>"
+               \* a banner of more than 4 KiB (processing instructions, blank lines) before the root element; a comment there would be the root's comment
+               [] h = "banner" -> "<?xml version=\"1.0\" encoding=\"utf-8\"?>\n<?banner " \o Rep16(Rep16(Rep16("licence "))) \o "?>\n<?tool generated?>\n\n"
                [] OTHER -> ""
 Styles == {[q |-> q, ws |-> w, empty |-> e, enc |-> c, hdr |-> h] :
              q \in {"dq", "sq"}, w \in {"none", "nl", "crlf", "tagsp"}, e \in {"self", "pair"}, c \in {"lit", "ent", "dec", "hex"},
-             h \in {"plain", "sa", "bom", "sq", "upper"}}
+             h \in {"plain", "sa", "bom", "sq", "upper", "banner"}}
 Quote(st) == IF st.q = "dq" THEN "\"" ELSE "'"
 RECURSIVE Indent(_)
 Indent(d) == IF d = 0 THEN "" ELSE "  " \o Indent(d - 1)
@@ -182,7 +185,22 @@ DefectsD1 == {
   <<1, "data after the root element", [k |-> "after", at |-> 0, p |-> "<EXTRA/>"]>>,
   <<1, "data after the root element", [k |-> "after", at |-> 0, p |-> "trailing"]>>,
   <<1, "non-schema version label", [k |-> "xsd", at |-> 1, p |-> "AUTOSAR_9-9-9.xsd"]>>,
-  <<1, "non-schema version label", [k |-> "xsd", at |-> 1, p |-> "autosar.xsd"]>> }
+  <<1, "non-schema version label", [k |-> "xsd", at |-> 1, p |-> "autosar.xsd"]>>,
+  \* multi-byte characters at and around the end of the "AUTOSAR" prefix of the schema file name
+  <<1, "non-schema version label", [k |-> "xsd", at |-> 1, p |-> "AUTOSA{c3}{a9}_00050.xsd"]>>,
+  <<1, "non-schema version label", [k |-> "xsd", at |-> 1, p |-> "AUTOS{e2}{82}{ac}_00050.xsd"]>>,
+  <<1, "non-schema version label", [k |-> "xsd", at |-> 1, p |-> "AUTOSAR_{c3}{a9}.xsd"]>>,
+  <<1, "non-schema version label", [k |-> "xsd", at |-> 1, p |-> "{c3}{a9}.xsd"]>>,
+  \* trailing data hidden behind something that may legally follow the root element
+  <<1, "data after the root element", [k |-> "after", at |-> 0, p |-> "<!-- x --><EXTRA/>"]>>,
+  <<1, "data after the root element", [k |-> "after", at |-> 0, p |-> "<!-- x -->trailing"]>>,
+  <<1, "data after the root element", [k |-> "after", at |-> 0, p |-> "<?pi?><EXTRA/>"]>>,
+  <<1, "data after the root element", [k |-> "after", at |-> 0, p |-> "\n<!-- x -->\n<AUTOSAR/>"]>>,
+  \* an ampersand that starts no entity at all
+  <<1, "malformed entity", [k |-> "text", at |-> 7, p |-> "R & D"]>>,
+  <<1, "malformed entity", [k |-> "text", at |-> 7, p |-> "AT&T"]>>,
+  <<1, "malformed entity", [k |-> "text", at |-> 7, p |-> "a&"]>>,
+  <<1, "malformed entity", [k |-> "attr", at |-> 10, p |-> "UUID=\"R & D\""]>> }
 DefectsD2 == {
   <<2, "element not in the file's version", [k |-> "lastchild", at |-> 6, p |-> "<SHORT-NAME-FRAGMENTS/>"]>>,
   <<2, "attribute not in the file's version", [k |-> "attr", at |-> 7, p |-> "NAME-PATTERN=\"x\""]>>,
